@@ -168,6 +168,11 @@ func (e *CEnv) evalIdent(name string) (CV, error) {
 		return v, nil
 	}
 	if e.frame != nil {
+		if _, ok := e.frame.env[name]; !ok && e.ex != nil && e.ex.localAlias != nil {
+			if now, renamed := e.ex.localAlias[name]; renamed {
+				name = now
+			}
+		}
 		if ent, ok := e.frame.env[name]; ok {
 			if t, ok := e.frame.regs[ent.v]; ok {
 				if ent.isAddr {
@@ -649,6 +654,12 @@ func (e *CEnv) evalCall(n *CCall) (CV, error) {
 		}
 		bm := w.heapGet(e.heap(), "BM", ArraySort(SRef, SBytes))
 		return CV{T: Select(bm, e.ex.bmKey(args[0].T))}, nil
+	case "dyntypeof": // dyntypeof(x): the dynamic type (as an opaque integer) of the object x refers to
+		args, err := evalArgs()
+		if err != nil {
+			return CV{}, err
+		}
+		return CV{T: App(SInt, "dyntype", args[0].T)}, nil
 	case "typeis": // typeis(x, "pkg.Type"): dynamic type test
 		if len(n.Args) != 2 {
 			return CV{}, cerr("typeis(x, \"T\")")
